@@ -117,6 +117,9 @@ def run_whole_responses(res, tier, pid="C01"):
             try:
                 small = b"20 text/gemini\r\n# small\n"
                 runs = [("/big.txt", b"20 text/plain\r\n" + body, 1.0), ("/small.gmi", small, 0.0), ("/missing", None, 0.0),
+                        # a reader that pauses for 8 s before reading: well inside asyncio's default TLS shutdown allowance (30 s) -
+                        # a listener created with a shorter one cuts the response short (standard-library backend only: one case)
+                        ] + ([("/big.txt", b"20 text/plain\r\n" + body, 8.0)] if backend == "stdlib" else []) + [
                         # queries are opaque to the server: several "?", "%3F", "&", "=" and an empty one
                         ("/small.gmi?a?b", small, 0.0), ("/small.gmi?what?", small, 0.0), ("/small.gmi?a=1?b=2?", small, 0.0),
                         ("/small.gmi?q=a&b=c%3F", small, 0.0), ("/small.gmi?", small, 0.0)]
